@@ -123,6 +123,15 @@ Proof. vm_compute. reflexivity. Qed.
     hists.insert(0, [["unit", "length"], ["unit", "length"], ["query", "in_unit", ["int", "3", "1"], 0, 1, 1, 1],
                      ["equals", 0, 1, ["int", "2", "1"], 1, 1], ["query", "in_unit", ["int", "3", "1"], 0, 1, 1, 1],
                      ["query", "in_unit", ["int", "3", "1"], 0, 1, 1, 1]])
+    # comparisons (not only conversions) attempted before the pair is related, the equivalence then declared through the module-level entry
+    # point Unit.equals itself calls, the same comparisons again
+    for how in (["module"], []):
+        hists.insert(1, [["unit", "length"], ["unit", "length"], ["unit", "length"],
+                         ["query", "eq", ["int", "2", "1"], 0, 1, 1, 1], ["query", "lt", ["int", "3", "1"], 0, 1, 1, 1], ["query", "eq", ["int", "2", "1"], 1, 1, 0, 1],
+                         ["equals", 0, 1, ["int", "2", "1"], 1, 1] + how,
+                         ["query", "eq", ["int", "2", "1"], 0, 1, 1, 1], ["query", "lt", ["int", "3", "1"], 0, 1, 1, 1], ["query", "eq", ["int", "2", "1"], 1, 1, 0, 1],
+                         ["query", "eq", ["int", "1", "1"], 0, 1, 2, 1], ["equals", 2, 1, ["float", "1", "2"], 1, 1] + how, ["query", "eq", ["int", "1", "1"], 0, 1, 2, 1],
+                         ["query", "lt", ["int", "1", "1"], 2, 1, 0, 1], ["query", "in_unit", ["int", "3", "1"], 0, 1, 2, 1]])
     # graphs with redundant, slightly inconsistent routes (cycles whose arcs multiply to different numbers, non-dyadic ratios whose
     # float products depend on association): the answer to a query must not depend on which other pairs were converted before,
     # nor on unrelated declarations or re-declarations made in between
@@ -147,7 +156,7 @@ Proof. vm_compute. reflexivity. Qed.
             e = rng.choice([o for o in ops if o[0] == "equals"]); ops.append(eq(e[1], e[4]))                             # re-declare an existing pair
         for _ in range(rng.randint(2, 5)): ops.append(q())
         return ops
-    check_all = set()
+    check_all = {0, 1, 2}      # the fixed histories at the head: every query replayed in a fresh process
     # a family declared redundantly with a rounded figure (x = 2 m, m = 5 z and x = 4 n, n = 1.25 o, o = 2.002 z: x is 10 z or 10.01 z):
     # which route x -> z takes is the library's choice, but the same choice whatever was converted before (fixed corpus)
     def fam(earlier):
